@@ -1,1 +1,315 @@
-//! placeholder (controlled scheduler lives here)
+//! Controlled scheduler: real threads that block at every verif yield point; a seeded
+//! scheduler releases exactly one at a time, so a run *is* an interleaving at the granularity
+//! of the instrumented atomic operations and is replayable from its seed.
+use std::cell::RefCell;
+use std::sync::atomic::{AtomicU64, AtomicU8, AtomicUsize, Ordering};
+use std::sync::{Arc, Mutex};
+use std::thread::Thread;
+
+use nucleo::verif::Point;
+
+use crate::rng::{Hasher64, Rng};
+
+const NOT_STARTED: u8 = 0;
+const RUNNING: u8 = 1;
+const WAITING: u8 = 2;
+const FINISHED: u8 = 3;
+const NONE: usize = usize::MAX;
+
+#[derive(Clone, Copy, Debug, PartialEq, Eq)]
+pub enum Policy {
+    Uniform,
+    /// PCT style: random priorities, `d` priority change points
+    Pct(u32),
+    /// keep running the same thread with probability 7/8 (long runs, few switches)
+    Sticky,
+}
+
+pub struct Sched {
+    status: Vec<AtomicU8>,
+    code: Vec<AtomicU8>,
+    granted: AtomicUsize,
+    handles: Mutex<Vec<Option<Thread>>>,
+    scheduler: Mutex<Option<Thread>>,
+}
+
+/// pseudo points used by the harness itself (values above every `Point`)
+pub const P_START: u8 = 200;
+pub const P_OP_BEGIN: u8 = 201;
+pub const P_OP_END: u8 = 202;
+pub const P_USER: u8 = 203;
+
+thread_local! {
+    static CTRL: RefCell<Option<(usize, Arc<Sched>)>> = const { RefCell::new(None) };
+}
+
+/// global logical clock for event stamps (call / return events of client operations)
+pub static CLOCK: AtomicU64 = AtomicU64::new(0);
+
+pub fn stamp() -> u64 {
+    CLOCK.fetch_add(1, Ordering::SeqCst)
+}
+
+/// the function installed with `nucleo::verif::set_hook` for controlled runs
+pub fn sched_hook(p: Point) {
+    yield_code(p as u8);
+}
+
+/// yield point for the harness' own operations
+pub fn yield_code(code: u8) {
+    let y = CO_YIELDER.with(|y| y.get());
+    if !y.is_null() {
+        // a logical thread run as a coroutine: hand control back to the scheduler
+        unsafe { (*y).suspend(code) };
+        return;
+    }
+    let ctrl = CTRL.with(|c| c.borrow().clone());
+    if let Some((id, s)) = ctrl {
+        s.yield_at(id, code);
+    }
+}
+
+thread_local! {
+    static CO_YIELDER: std::cell::Cell<*const corosensei::Yielder<(), u8>> = const { std::cell::Cell::new(std::ptr::null()) };
+}
+
+/// Runs `bodies` as logical threads (stackful coroutines on the calling OS thread) under one
+/// schedule: the same contract as [`run_controlled`] without any OS level context switches.
+/// Only usable when the bodies never block on each other outside the yield points.
+pub fn run_coroutines<'a>(
+    bodies: Vec<Box<dyn FnOnce() + 'a>>,
+    rng: &mut Rng,
+    policy: Policy,
+    est_len: u64,
+) -> (u64, u64, Vec<(u8, u8)>) {
+    use corosensei::stack::DefaultStack;
+    use corosensei::{Coroutine, CoroutineResult};
+    let n = bodies.len();
+    let slots: Vec<std::cell::Cell<*const corosensei::Yielder<(), u8>>> = (0..n).map(|_| std::cell::Cell::new(std::ptr::null())).collect();
+    let slots_ref = &slots;
+    let mut cos: Vec<Option<Coroutine<(), u8, (), DefaultStack>>> = Vec::with_capacity(n);
+    for (id, body) in bodies.into_iter().enumerate() {
+        let stack = DefaultStack::new(512 * 1024).expect("coroutine stack");
+        // safety of the lifetime erasure: every coroutine is run to completion before this function returns
+        let body: Box<dyn FnOnce() + 'static> = unsafe { std::mem::transmute::<Box<dyn FnOnce() + 'a>, Box<dyn FnOnce() + 'static>>(body) };
+        let slot_addr = &slots_ref[id] as *const std::cell::Cell<*const corosensei::Yielder<(), u8>> as usize;
+        cos.push(Some(Coroutine::with_stack(stack, move |yielder: &corosensei::Yielder<(), u8>, _input: ()| {
+            let slot = unsafe { &*(slot_addr as *const std::cell::Cell<*const corosensei::Yielder<(), u8>>) };
+            slot.set(yielder as *const _);
+            CO_YIELDER.with(|y| y.set(yielder as *const _));
+            body();
+        })));
+    }
+    // per logical thread: the yield code it is waiting at (None = finished)
+    let mut waiting: Vec<Option<u8>> = vec![Some(P_START); n];
+    let mut prio: Vec<u32> = (0..n as u32).map(|i| i + 1000).collect();
+    rng.shuffle(&mut prio);
+    let mut change_points: Vec<u64> = Vec::new();
+    if let Policy::Pct(d) = policy {
+        for _ in 0..d {
+            change_points.push(rng.below(est_len.max(1) as usize) as u64);
+        }
+    }
+    let mut low = 999u32;
+    let mut steps = 0u64;
+    let mut trace_hash = Hasher64::new();
+    let mut trace: Vec<(u8, u8)> = Vec::new();
+    let mut last = NONE;
+    loop {
+        let runnable: Vec<usize> = (0..n).filter(|&i| waiting[i].is_some()).collect();
+        if runnable.is_empty() {
+            break;
+        }
+        let pick = match policy {
+            Policy::Uniform => *rng.pick(&runnable),
+            Policy::Sticky => {
+                if runnable.contains(&last) && rng.chance(7, 8) {
+                    last
+                } else {
+                    *rng.pick(&runnable)
+                }
+            }
+            Policy::Pct(_) => {
+                if change_points.contains(&steps) && last < n {
+                    prio[last] = low;
+                    low = low.saturating_sub(1);
+                }
+                *runnable.iter().max_by_key(|&&i| prio[i]).unwrap()
+            }
+        };
+        let code = waiting[pick].unwrap();
+        steps += 1;
+        trace_hash.add(((pick as u64) << 8) | code as u64);
+        if trace.len() < 4000 {
+            trace.push((pick as u8, code));
+        }
+        last = pick;
+        CO_YIELDER.with(|y| y.set(slots[pick].get()));
+        let res = cos[pick].as_mut().unwrap().resume(());
+        CO_YIELDER.with(|y| y.set(std::ptr::null()));
+        match res {
+            CoroutineResult::Yield(code) => waiting[pick] = Some(code),
+            CoroutineResult::Return(()) => {
+                waiting[pick] = None;
+                cos[pick] = None;
+            }
+        }
+    }
+    (steps, trace_hash.finish(), trace)
+}
+
+pub fn is_controlled() -> bool {
+    CTRL.with(|c| c.borrow().is_some())
+}
+
+fn backoff(round: &mut u32) {
+    *round += 1;
+    if *round < 3000 {
+        std::hint::spin_loop();
+    } else if *round < 3100 {
+        std::thread::yield_now();
+    } else {
+        std::thread::park_timeout(std::time::Duration::from_micros(200));
+    }
+}
+
+impl Sched {
+    pub fn new(n: usize) -> Arc<Sched> {
+        Arc::new(Sched {
+            status: (0..n).map(|_| AtomicU8::new(NOT_STARTED)).collect(),
+            code: (0..n).map(|_| AtomicU8::new(0)).collect(),
+            granted: AtomicUsize::new(NONE),
+            handles: Mutex::new(vec![None; n]),
+            scheduler: Mutex::new(None),
+        })
+    }
+
+    fn wake_scheduler(&self) {
+        if let Some(t) = self.scheduler.lock().unwrap().as_ref() {
+            t.unpark();
+        }
+    }
+
+    fn yield_at(&self, id: usize, code: u8) {
+        self.code[id].store(code, Ordering::Relaxed);
+        self.status[id].store(WAITING, Ordering::SeqCst);
+        self.wake_scheduler();
+        let mut round = 0;
+        while self.granted.load(Ordering::SeqCst) != id {
+            backoff(&mut round);
+        }
+        self.status[id].store(RUNNING, Ordering::SeqCst);
+        self.granted.store(NONE, Ordering::SeqCst);
+    }
+
+    /// to be called first thing on a controlled thread
+    pub fn enter(self: &Arc<Self>, id: usize) {
+        CTRL.with(|c| *c.borrow_mut() = Some((id, self.clone())));
+        self.handles.lock().unwrap()[id] = Some(std::thread::current());
+        self.yield_at(id, P_START);
+    }
+
+    /// to be called last thing on a controlled thread (also on unwinding)
+    pub fn leave(&self, id: usize) {
+        CTRL.with(|c| *c.borrow_mut() = None);
+        self.status[id].store(FINISHED, Ordering::SeqCst);
+        self.wake_scheduler();
+    }
+
+    /// scheduling loop; returns (steps, trace hash, trace (capped))
+    pub fn run(&self, rng: &mut Rng, policy: Policy, est_len: u64) -> (u64, u64, Vec<(u8, u8)>) {
+        *self.scheduler.lock().unwrap() = Some(std::thread::current());
+        let n = self.status.len();
+        let mut prio: Vec<u32> = (0..n as u32).map(|i| i + 1000).collect();
+        rng.shuffle(&mut prio);
+        let mut change_points: Vec<u64> = Vec::new();
+        if let Policy::Pct(d) = policy {
+            for _ in 0..d {
+                change_points.push(rng.below(est_len.max(1) as usize) as u64);
+            }
+        }
+        let mut low = 999u32;
+        let mut steps = 0u64;
+        let mut trace_hash = Hasher64::new();
+        let mut trace: Vec<(u8, u8)> = Vec::new();
+        let mut last = NONE;
+        loop {
+            // wait until nobody runs
+            let mut round = 0;
+            loop {
+                let quiet = self.granted.load(Ordering::SeqCst) == NONE
+                    && self.status.iter().all(|s| {
+                        let s = s.load(Ordering::SeqCst);
+                        s == WAITING || s == FINISHED
+                    });
+                // re-check the grant: a thread stores RUNNING before it clears the grant
+                if quiet && self.granted.load(Ordering::SeqCst) == NONE {
+                    break;
+                }
+                backoff(&mut round);
+            }
+            let waiting: Vec<usize> = (0..n).filter(|&i| self.status[i].load(Ordering::SeqCst) == WAITING).collect();
+            if waiting.is_empty() {
+                break;
+            }
+            let pick = match policy {
+                Policy::Uniform => *rng.pick(&waiting),
+                Policy::Sticky => {
+                    if waiting.contains(&last) && rng.chance(7, 8) {
+                        last
+                    } else {
+                        *rng.pick(&waiting)
+                    }
+                }
+                Policy::Pct(_) => {
+                    if change_points.contains(&steps) && last < n {
+                        prio[last] = low;
+                        low = low.saturating_sub(1);
+                    }
+                    *waiting.iter().max_by_key(|&&i| prio[i]).unwrap()
+                }
+            };
+            let code = self.code[pick].load(Ordering::Relaxed);
+            steps += 1;
+            trace_hash.add(((pick as u64) << 8) | code as u64);
+            if trace.len() < 4000 {
+                trace.push((pick as u8, code));
+            }
+            last = pick;
+            self.granted.store(pick, Ordering::SeqCst);
+            if let Some(t) = self.handles.lock().unwrap()[pick].as_ref() {
+                t.unpark();
+            }
+        }
+        *self.scheduler.lock().unwrap() = None;
+        (steps, trace_hash.finish(), trace)
+    }
+}
+
+/// runs `bodies` as controlled threads under one schedule
+pub fn run_controlled<'a>(
+    bodies: Vec<Box<dyn FnOnce() + Send + 'a>>,
+    rng: &mut Rng,
+    policy: Policy,
+    est_len: u64,
+) -> (u64, u64, Vec<(u8, u8)>) {
+    let n = bodies.len();
+    let sched = Sched::new(n);
+    std::thread::scope(|scope| {
+        for (id, body) in bodies.into_iter().enumerate() {
+            let sched = sched.clone();
+            scope.spawn(move || {
+                struct Leave(Arc<Sched>, usize);
+                impl Drop for Leave {
+                    fn drop(&mut self) {
+                        self.0.leave(self.1)
+                    }
+                }
+                sched.enter(id);
+                let _leave = Leave(sched.clone(), id);
+                body();
+            });
+        }
+        sched.run(rng, policy, est_len)
+    })
+}
